@@ -680,7 +680,7 @@ func c04JSONRules(r *Run) {
 			return "?"
 		}
 		r.ExpectArg(c, key+":unmarshal.into", 1, "new:"+typ+"#*")
-		c04KeepsDecoded(r, fn, key+":result", c, 1)
+		c04KeepsDecoded(r, fn, key+":unmarshal.kept", c, 1)
 		return "*" + r.D.D(CallArgs(c)[1])
 	}
 	// field `field` of the returned struct is what that tls.Unmarshal decoded: through a local that is
